@@ -200,3 +200,188 @@ def true_spectra(V, lead_zero, container):
             continue
         out.side_conditions()
         spectra_clauses(V, out, st, lead_zero, True)
+
+
+# ------------------------------------------------------------------------------ undamped: true S_a equals pseudo S_a
+@unit('C03', 'true-equals-pseudo-S_a-when-undamped', functions=[SD + 'true_response_spectra', SD + 'pseudo_response_spectra'],
+      modes=('unbounded',), budget_ms=60000)
+def undamped(V):
+    st = {}
+    for out in V.run(SD + 'true_response_spectra', _spectra_setup(V, st, False, 'array')):
+        if not out.no_raise():
+            continue
+        out.assume(T.seq(st['xi'], 0))
+        pseudo_res = V.itp.call(V.itp.get_function(SD + 'pseudo_response_spectra'), [st['acc'], st['dt'], st['per'], st['xi']], {})
+        sa_t, sa_p = out.result[2], pseudo_res[2]
+        calls = out.cx.cache.get('nj-calls', [])
+        U, Aa = calls[0]['U'], calls[0]['A']
+        cU, cA = A.to_carr(U), A.to_carr(Aa)
+        per, dt = st['per'], st['dt']
+        for r in V.idx(0, st['P'], 'r'):
+            # ground instances of the library max/min contracts and of the C01 contract at the four witness columns
+            wc = T.sdiv(W_CONST, per[r])
+            mxU, mnU = V.np.np_max(U, axis=1)[r], V.np.np_min(U, axis=1)[r]
+            mxA, mnA = V.np.np_max(Aa, axis=1)[r], V.np.np_min(Aa, axis=1)[r]
+            wit = {(nm, mx): V.np.extreme_witness(arr, 1, mx)(r) for nm, arr in (('U', U), ('A', Aa)) for mx in (True, False)}
+            ground = [T.sgt(per[r], 0), T.sgt(dt, 0)]
+            inst = []
+            for (nm, mx), j in wit.items():
+                inst.append(T.seq(cA.at(r, j), T.sneg(T.smul(T.smul(wc, wc), cU.at(r, j)))))     # third series at xi = 0
+                inst += [T.sle(cU.at(r, j), mxU), T.sge(cU.at(r, j), mnU), T.sle(cA.at(r, j), mxA), T.sge(cA.at(r, j), mnA)]
+            inst += [T.seq(cU.at(r, wit[('U', True)]), mxU), T.seq(cU.at(r, wit[('U', False)]), mnU),
+                     T.seq(cA.at(r, wit[('A', True)]), mxA), T.seq(cA.at(r, wit[('A', False)]), mnA)]
+            for k, h in enumerate(inst):
+                out.prove('undamped/instance-%d-of-the-assumed-contracts' % k, h)        # each instance follows from the path facts
+            sd = T.smax2(mxU, T.sneg(mnU))
+            amax = T.smax2(mxA, T.sneg(mnA))
+            out.prove_from('undamped/max|a_total| = w_c^2 * S_d', ground + inst, T.seq(amax, T.smul(T.smul(wc, wc), sd)), budget_ms=60000)
+            # final comparison from that lemma (quantifier free): the two angular-frequency constants differ by < 1.2e-9 relative
+            two_pi = T.smul(2, T.pi())
+            wp = T.sdiv(two_pi, per[r])
+            short = T.slt(per[r], T.smul(dt, 6))
+            pga = V.real('pga_abstract')
+            sat = T.site(short, pga, amax)
+            sap = T.site(short, pga, T.smul(T.smul(wp, wp), sd))
+            lemma = T.seq(amax, T.smul(T.smul(wc, wc), sd))
+            pi_facts = [T.pi() > Q('3.14159265358979'), T.pi() < Q('3.14159265358980')]
+            out.prove_from('undamped/|S_a(true) - S_a(pseudo)| <= 3e-9 * S_a(pseudo) [from the lemma]',
+                           ground + pi_facts + [lemma, T.sge(sd, 0), T.sge(pga, 0)],
+                           T.sle(T.sabs(T.ssub(sat, sap)), T.smul(Q('3e-9'), sap)), budget_ms=60000)
+            out.prove('undamped/S_d-non-negative', T.sge(sd, 0))
+            out.prove('undamped/result-has-this-form', T.sand(T.seq(sa_t[r], T.site(short, T.smax2(V.np.np_max(st['acc']), T.sneg(V.np.np_min(st['acc']))), amax)),
+                                                             T.seq(sa_p[r], T.site(short, T.smax2(V.np.np_max(st['acc']), T.sneg(V.np.np_min(st['acc']))), T.smul(T.smul(wp, wp), sd)))))
+
+
+# --------------------------------------------------------------------------------------------- AccSignal spectra
+def prs_logging_summary(itp, motion, dt, periods, xi):
+    M = itp.lib.models
+    per = M.np_array(periods, dtype=itp.lib.builtin('float'))
+    P = per.shape[0]
+    key = [motion, dt, per, xi]
+    res = tuple(M.opaque_array('pseudo_rs_%s' % nm, key, (P,), 'float', assumed='contract of pseudo_response_spectra (proved in this property)') for nm in ('sd', 'sv', 'sa'))
+    T.ctx().cache.setdefault('prs-calls', []).append(dict(motion=motion, dt=dt, periods=per, xi=xi, res=res))
+    return res
+
+
+@unit('C03', 'AccSignal.gen_response_spectrum', functions=['eqsig.single.AccSignal.gen_response_spectrum', 'eqsig.single.AccSignal.s_a',
+                                                          'eqsig.single.AccSignal.s_v', 'eqsig.single.AccSignal.s_d'],
+      cases=[dict(ratio=r, lead_zero=z, how=h) for r in (1, 2, 4, 8) for z in (False, True) for h in ('explicit',)] +
+            [dict(ratio=4, lead_zero=False, how='lazy')], modes=('unbounded',), budget_ms=30000)
+def gen_response_spectrum(V, ratio, lead_zero, how):
+    st = {}
+
+    def setup():
+        V.itp.contracts[SD + 'pseudo_response_spectra'] = prs_logging_summary
+        n = V.size('n', 2)
+        x = V.array('x', n, origin='param')
+        dt = V.real('dt')
+        V.assume(dt > 0)
+        P = V.size('P', 2)
+        rt = V.array('rt', P, origin='param')
+        q = z3.Int('qT')
+        T.ctx().facts.append(z3.ForAll([q], z3.Implies(z3.And((1 if lead_zero else 0) <= q, q < P), T.to_z3(rt.at(q)) > 0), patterns=[T.to_z3(rt.at(q))]))
+        V.assume(rt[0] == 0 if lead_zero else rt[0] > 0, rt[1] > 0)
+        asig = S.make_signal(V, 'AccSignal', x, dt, response_times=rt)
+        xi = V.real('xi')
+        V.assume(xi >= 0, xi < 1)
+        st.update(n=n, x=x, dt=dt, rt=rt, P=P, asig=asig, xi=xi)
+        return ((asig,), {})
+
+    def op(itp, asig):
+        if how == 'explicit':
+            itp.call(itp.get_attr(asig, 'gen_response_spectrum'), [], dict(xi=st['xi'], min_dt_ratio=ratio))
+        return itp.get_attr(asig, 's_a'), itp.get_attr(asig, 's_v'), itp.get_attr(asig, 's_d')
+    for out in V.run(op, setup):
+        if not out.no_raise():
+            continue
+        n, x, dt, rt, P = st['n'], st['x'], st['dt'], st['rt'], st['P']
+        calls = out.cx.cache.get('prs-calls', [])
+        out.prove('spectra-computed-exactly-once', len(calls) == 1)
+        if len(calls) != 1:
+            continue
+        c = calls[0]
+        eff_ratio = ratio if how == 'explicit' else 4
+        t_min = rt[1] if lead_zero else rt[0]
+        target = T.smax2(T.sdiv(t_min, 20), T.sdiv(dt, eff_ratio))
+        dti = c['dt']
+        out.prove('integration-step-not-coarser-than-max(T_min/20, dt/min_dt_ratio)', T.sle(dti, target))
+        out.prove('integration-step-not-coarser-than-record-step', T.sand(T.sgt(dti, 0), T.sle(dti, dt)))
+        m = T.site(T.slt(target, dt), T.sceil(T.sdiv(dt, target)), 1)
+        out.prove('record-step-is-an-integer-multiple-of-integration-step', T.sand(T.sge(m, 1), T.seq(T.smul(dti, m), dt)))
+        y = c['motion']
+        for k in V.idx(0, n, 'k'):
+            idx = T.smul(k, m)
+            out.prove('integrated-record-retains-EVERY-original-sample', T.sand(T.slt(idx, y.shape[0]), T.seq(A.to_carr(y).at(idx), x[k])), budget_ms=30000)
+        out.prove('periods-passed-are-the-response-times', T.seq(c['periods'].shape[0], P))
+        for r in V.idx(0, P, 'r'):
+            out.prove('periods-passed-are-the-response-times/values', T.seq(c['periods'][r], rt[r]))
+        out.prove('damping-passed', T.seq(c['xi'], st['xi'] if how == 'explicit' else Q('0.05')))
+        sa, sv, sd = out.result
+        for nm, got, want in (('s_a', sa, c['res'][2]), ('s_v', sv, c['res'][1]), ('s_d', sd, c['res'][0])):
+            out.prove('%s-is-the-spectrum-of-that-computation' % nm, CS.values_equal(V, got, want))
+        out.unchanged('x', x)
+
+
+# ------------------------------------------------------------------------------------------------ energy spectra
+def rs_logging_summary(itp, motion, dt, periods, xi):
+    U, Vv, Aa = nj_summary(itp, motion, dt, periods, xi)
+    return U, Vv, Aa
+
+
+@unit('C03', 'energy-spectra', functions=[SD + 'calc_resp_uke_spectrum', SD + 'calc_input_energy_spectrum'],
+      cases=[dict(fn='uke'), dict(fn='input'), dict(fn='input-series')], sizes=dict(n=[3], P=[2]))
+def energy_spectra(V, fn):
+    st = {}
+
+    def setup():
+        install(V)
+        n = V.size('n', 2)
+        x = V.array('x', n, origin='param')
+        dt = V.real('dt')
+        V.assume(dt > 0)
+        P = V.size('P', 1)
+        per = V.array('T', P, origin='param')
+        if isinstance(P, int):
+            for q in range(P):
+                V.assume(per[q] > 0)
+        else:
+            V.assume(per[0] > 0)
+        asig = S.make_signal(V, 'AccSignal', x, dt)
+        xi = V.real('xi')
+        V.assume(xi >= 0, xi < 1)
+        st.update(n=n, x=x, dt=dt, per=per, P=P, xi=xi)
+        kw = dict(acc_signal=asig, periods=per, xi=xi)
+        if fn == 'input-series':
+            kw['series'] = True
+        return kw
+    name = SD + ('calc_resp_uke_spectrum' if fn == 'uke' else 'calc_input_energy_spectrum')
+    for out in V.run(name, setup):
+        if not out.no_raise():
+            continue
+        out.side_conditions()
+        n, x, dt, P = st['n'], st['x'], st['dt'], st['P']
+        calls = out.cx.cache.get('nj-calls', [])
+        out.prove('one-response-computation', len(calls) == 1)
+        if len(calls) != 1:
+            continue
+        c = calls[0]
+        Vv = c['V']
+        out.prove('response-for-this-signal', T.sand(T.seq(c['dt'], dt), T.seq(c['xi'], st['xi'])))
+        res = out.result
+        if fn == 'uke':
+            ke = V.op('*', V.op('*', Q('1/2'), V.op('**', Vv, 2)), 1)
+            want = V.np.np_sum(V.np.np_abs(V.np.np_diff(ke)), axis=1)
+            for r in V.idx(0, P, 'r'):
+                out.prove('kinetic-energy-spectrum-is-sum|delta(v^2/2)|', T.seq(res[r], want[r]))
+                if V.mode == 'bounded':            # (unbounded: needs an induction over the partial sums; not mechanised)
+                    out.prove('non-negative', T.sge(res[r], 0))
+        elif fn == 'input':
+            want = V.np.np_sum(V.op('*', V.op('*', x, Vv), dt), axis=1)
+            for r in V.idx(0, P, 'r'):
+                out.prove('input-energy-spectrum-is-sum(a*v*dt)', T.seq(res[r], want[r]))
+        else:
+            want = V.np.np_cumsum(V.op('*', V.op('*', x, Vv), dt), axis=1)
+            for r in V.idx(0, P, 'r'):
+                for j in V.idx(0, n, 'j'):
+                    out.prove('input-energy-series-is-running-sum(a*v*dt)', T.seq(res[r, j], want[r, j]))
+        out.unchanged('x', x)
